@@ -1302,3 +1302,257 @@ Proof.
     { unfold use_vars. simpl. rewrite scope_get_abs in SG. norm. rewrite SG. reflexivity. }
     rewrite U0. simpl. rewrite Uv. simpl. exact Uv2.
 Qed.
+
+Lemma call_stmt_sim s r s' : parse_call_stmt B s = Ok r s' -> SIM s r s'.
+Proof.
+  unfold parse_call_stmt. intros H Q [N U].
+  destruct (lookup_fn _ (fns s)) as [fi|] eqn:L; [|discriminate H].
+  destruct (p_func_call B (fi_nil fi) s) as [x s1| |] eqn:P; try discriminate H.
+  destruct x as [c|]; [|discriminate H].
+  apply Ok_inj in H as [E1 E2]; subst. norm.
+  destruct (assert_eol_ne _ Q) as [E _]. rewrite E in *.
+  destruct (p_func_call_full B _ _ _ _ P Q U (func_of_env _ _ _ _ L)) as (T & Uv & F & U1).
+  split; [exact U1|]. split; [exact F|]. split; [apply expr_sok_of; exact T|exact Uv].
+Qed.
+
+Lemma break_stmt_sim s r s' : parse_break_stmt s = Ok r s' -> SIM s r s'.
+Proof.
+  unfold parse_break_stmt. intros H Q [N U]. apply Ok_inj in H as [E1 E2]; subst. norm.
+  destruct (assert_eol_ne _ Q) as [E _]. rewrite E in *. norm.
+  destruct (in_loop s); norm; [|discriminate Q]. repeat split; auto.
+Qed.
+
+Lemma empty_stmt_sim s r s' : parse_empty_stmt s = Ok r s' -> SIM s r s'.
+Proof.
+  unfold parse_empty_stmt. intros H Q [N U].
+  destruct (ct s); try discriminate H; apply Ok_inj in H as [E1 E2]; subst; norm; repeat split; auto.
+Qed.
+
+Lemma return_stmt_sim s r s' : parse_return_stmt B s = Ok r s' -> SIM s r s'.
+Proof.
+  unfold parse_return_stmt. intros H Q [N U]. cbv zeta in H.
+  destruct (is_at_eol (cs (adv s))) eqn:EOL.
+  - apply Ok_inj in H as [E1 E2]; subst. norm.
+    destruct (negb (has_ret (adv s))); norm; [discriminate Q|].
+    destruct (ret_value (adv s)); norm; [discriminate Q|]. repeat split; auto.
+  - destruct (p_toplevel B (adv s)) as [x s2| |] eqn:P; try discriminate H.
+    destruct x as [t|]; apply Ok_inj in H as [E1 E2]; subst; norm.
+    + destruct (negb (has_ret (assert_eol s2))); norm; [discriminate Q|].
+      destruct (tyerr_s B TS_return_type t _) eqn:TE; norm; [discriminate Q|].
+      destruct (assert_eol_ne _ Q) as [E _]. rewrite E in *.
+      destruct (p_toplevel_full B _ _ _ P Q) as (T & Uv & F & U1); [norm; exact U|]. norm.
+      split; [exact U1|]. split; [exact F|]. split; [|exact Uv].
+      split; [apply (expr_sok_of B (adv s)); exact T|eexists; exact TE].
+    + destruct (negb (has_ret s2)); norm; discriminate Q.
+Qed.
+
+Lemma condition_sim s r s' : parse_condition B s = Ok r s' -> serrs s' = [] -> sused s = [] ->
+  exists c, r = Some c /\ expr_sok B (fns s) c /\ silent B TS_condition c /\
+            use_vars (tvars c) (abs s) = Some (abs s') /\ fns s' = fns s /\ sused s' = [].
+Proof.
+  unfold parse_condition. intros H Q U.
+  destruct (p_toplevel B s) as [c s1| |] eqn:P; try discriminate H.
+  destruct c as [c|]; apply Ok_inj in H as [E1 E2]; subst.
+  - destruct (tyerr_s B TS_condition c (pos s)) eqn:TE; norm; [discriminate Q|].
+    destruct (assert_eol_ne _ Q) as [E _]. rewrite E in *.
+    destruct (p_toplevel_full B _ _ _ P Q U) as (T & Uv & F & U1).
+    exists c. split; [reflexivity|]. split; [apply expr_sok_of; exact T|]. split; [eexists; exact TE|]. auto.
+  - exfalso. unfold p_toplevel, expr_call in P. destruct (parse_toplevel _ _ _ _) as [[a c']|] eqn:PI; [|discriminate P].
+    apply Ok_inj in P as [<- ->]. rewrite serrs_collect in Q.
+    exact (toplevel_nil _ _ (proj1 (expr_nil _ _)) _ _ _ PI Q).
+Qed.
+
+(* validateScope without an error: every variable of the innermost scope is used *)
+Lemma insert_by_pos_ne v l : insert_by_pos v l <> [].
+Proof. destruct l as [|w r]; simpl; [discriminate|]. destruct (Nat.leb _ _); discriminate. Qed.
+Lemma validate_close s : serrs (validate_scope s) = [] -> scs s <> [] -> close_scope (abs s) = Some (tl (abs s)).
+Proof.
+  unfold validate_scope, abs. intros Q N. destruct (scs s) as [|sc r]; [contradiction|]. simpl.
+  assert (F : filter (fun v => negb (v_used v)) (sc_vars sc) = []).
+  { destruct (filter _ (sc_vars sc)) as [|v l]; [reflexivity|]. exfalso. simpl in Q.
+    destruct (insert_by_pos v (sort_by_pos l)) as [|w m] eqn:I; [exact (insert_by_pos_ne _ _ I)|].
+    simpl in Q. apply serrs_fold_serr in Q. discriminate Q. }
+  assert (A : forallb snd (absf sc) = true).
+  { clear Q. unfold absf. induction (sc_vars sc) as [|v l IH]; simpl; [reflexivity|]. simpl in F.
+    destruct (v_used v); simpl in *; [apply IH; exact F|discriminate F]. }
+  rewrite A. reflexivity.
+Qed.
+
+(* ---- the part that is open in parseStatement ---- *)
+Variable ps : pst -> PR (option stmt).
+Hypothesis HPS : forall s r s', ps s = Ok r s' -> snd_s s r s'.
+Hypothesis HSIM : forall s r s', ps s = Ok r s' -> SIM s r s'.
+
+Lemma block_loop_sim : forall fuel els acc terms s b s', block_loop ps fuel els acc terms s = Ok b s' ->
+  serrs s' = [] -> WF s ->
+  sused s' = [] /\ fns s' = fns s /\
+  exists l t, b = Block (rev acc ++ l) t /\ stmts_sok B (fns s) l /\ scope_stmts (tabs_of B (fns s)) l (abs s) = Some (abs s').
+Proof.
+  induction fuel as [|f IH]; intros els acc terms s b s' H Q W; [discriminate|]. cbn [block_loop] in H.
+  destruct (match ct s with T_END | T_EOF => true | T_ELSE => els | _ => false end).
+  - apply Ok_inj in H as [E1 E2]; subst. destruct W. split; [assumption|]. split; [reflexivity|].
+    exists [], terms. rewrite app_nil_r. split; [reflexivity|]. split; [constructor|reflexivity].
+  - destruct (ps s) as [r s1| |] eqn:P; try discriminate H.
+    pose proof (HPS _ _ _ P) as S1. pose proof (HSIM _ _ _ P) as M1.
+    assert (Q1 : serrs s1 = []).
+    { destruct r as [st|]; [destruct (terms && _)|]; pose proof (block_loop_sn ps HPS _ _ _ _ _ _ _ H Q) as [Q1 _];
+        [discriminate Q1|exact Q1|exact Q1]. }
+    destruct (S1 Q1) as (_ & F1 & _). destruct (M1 Q1 W) as (U1 & Fn1 & M).
+    assert (W1 : WF s1) by (split; [eapply scs_of_frames; [exact F1|apply W]|exact U1]).
+    destruct r as [st|].
+    + destruct (terms && negb (is_empty_stmt st)).
+      * pose proof (block_loop_sn ps HPS _ _ _ _ _ _ _ H Q) as [Q2 _]. discriminate Q2.
+      * destruct (IH _ _ _ _ _ _ H Q W1) as (U2 & Fn2 & l & t & Eb & Hl & Hs).
+        split; [exact U2|]. split; [congruence|]. exists (st :: l), t. simpl in Eb. rewrite <- app_assoc in Eb. split; [exact Eb|].
+        destruct M as [Ms Mc]. rewrite Fn1 in *. split; [constructor; assumption|]. simpl. rewrite Mc. simpl. exact Hs.
+    + destruct (IH _ _ _ _ _ _ H Q W1) as (U2 & Fn2 & l & t & Eb & Hl & Hs).
+      split; [exact U2|]. split; [congruence|]. exists l, t. rewrite Fn1, M in *. auto.
+Qed.
+
+Lemma block_with_sim fuel els s b s' : parse_block_with ps fuel els s = Ok b s' -> serrs s' = [] -> WF s ->
+  sused s' = [] /\ fns s' = fns s /\ block_sok B (fns s) b /\
+  scope_block (tabs_of B (fns s)) b (abs s) = Some (tl (abs s')).
+Proof.
+  unfold parse_block_with. intros H Q W.
+  destruct (block_loop ps fuel els [] false s) as [b1 s1| |] eqn:P; try discriminate H.
+  apply Ok_inj in H as [E1 E2]; subst.
+  assert (Q1 : serrs s1 = []).
+  { apply serrs_validate_scope in Q. destruct b1 as [[|x l] t]; [discriminate Q|exact Q]. }
+  destruct (block_loop_sn ps HPS _ _ _ _ _ _ _ P Q1) as [_ F1].
+  destruct (block_loop_sim _ _ _ _ _ _ _ P Q1 W) as (U1 & Fn1 & l & t & Eb & Hl & Hs). simpl in Eb. subst b1.
+  assert (E : (match Block l t with Block [] _ => serr_at K_empty_block (pos s) s1 | _ => s1 end) = s1).
+  { destruct l; [apply serrs_validate_scope in Q; discriminate Q|reflexivity]. }
+  rewrite E in *. norm. split; [exact U1|]. split; [exact Fn1|]. split.
+  - simpl. apply stmts_sok_fix. exact Hl.
+  - rewrite scope_block_eq, Hs. simpl. apply validate_close; [exact Q|]. eapply scs_of_frames; [exact F1|apply W].
+Qed.
+
+Lemma while_stmt_sim fuel s r s' : parse_while_stmt B ps fuel s = Ok r s' -> SIM s r s'.
+Proof.
+  unfold parse_while_stmt. intros H Q [N U]. cbv zeta in H.
+  destruct (parse_condition B (push_inherit true (adv s))) as [c s2| |] eqn:P; try discriminate H.
+  destruct (parse_block_with ps fuel false (apnl s2)) as [b s3| |] eqn:PB; try discriminate H.
+  apply Ok_inj in H as [E1 E2]; subst. norm.
+  destruct (SN_finish_end s3 Q) as [Q3 F3].
+  destruct (block_with_sound ps HPS _ _ _ _ _ PB Q3) as (Qb & Fb & _). norm.
+  destruct (condition_sn B _ _ _ P Qb) as [_ F2].
+  destruct (condition_sim _ _ _ P Qb) as (c0 & -> & Tc & Sc & Uc & Fc & U2); [norm; exact U|]. norm.
+  destruct (block_with_sim _ _ _ _ _ PB Q3) as (U3 & Fn3 & Tb & Sb).
+  { split; [|norm; exact U2]. eapply (scs_of_frames (push_inherit true (adv s))); [autorewrite with frames; exact F2|discriminate]. }
+  norm. rewrite Fc in *.
+  split; [exact U3|]. split; [exact Fn3|]. split; [split; [split|]; assumption|].
+  simpl. rewrite Uc. simpl. exact Sb.
+Qed.
+
+Definition cb_sok (F : list (str * finfo)) (cb : option tree * block) : Prop :=
+  (match fst cb with Some c => expr_sok B F c /\ silent B TS_condition c | None => True end) /\ block_sok B F (snd cb).
+Lemma brs_sok_fix F l :
+  (fix all (l : list (option tree * block)) : Prop :=
+     match l with
+     | [] => True
+     | cb :: r => (match fst cb with Some c => expr_sok B F c /\ silent B TS_condition c | None => True end) /\
+                  block_sok B F (snd cb) /\ all r
+     end) l <-> Forall (cb_sok F) l.
+Proof.
+  induction l as [|x l IH]; simpl; [split; [constructor|auto]|].
+  split; [intros (H1 & H2 & H3); constructor; [split; assumption|apply IH; exact H3]|].
+  intro H. destruct (Forall_inv H) as [H1 H2]. split; [exact H1|]. split; [exact H2|]. apply IH. exact (Forall_inv_tail H).
+Qed.
+Fixpoint scope_brs (T : tabs) (l : list (option tree * block)) (G : ctx) : option ctx :=
+  match l with
+  | [] => Some G
+  | cb :: r => obind (obind (use_vars (otv' (fst cb)) ([] :: G)) (scope_block T (snd cb))) (scope_brs T r)
+  end.
+Lemma scope_if_eq T brs els G :
+  scope_stmt T (SIf brs els) G =
+  obind (scope_brs T brs G) (fun G1 => match els with Some e => scope_block T e ([] :: G1) | None => Some G1 end).
+Proof.
+  simpl. f_equal. revert G. induction brs as [|cb r IH]; intro G; simpl; [reflexivity|].
+  destruct (obind (use_vars (otv' (fst cb)) ([] :: G)) _); simpl; [apply IH|reflexivity].
+Qed.
+Lemma scope_brs_app T a b G : scope_brs T (a ++ b) G = obind (scope_brs T a G) (scope_brs T b).
+Proof.
+  revert G. induction a as [|x a IH]; intro G; simpl; [reflexivity|].
+  destruct (obind (use_vars (otv' (fst x)) ([] :: G)) _); simpl; [apply IH|reflexivity].
+Qed.
+
+Lemma if_cond_block_sim fuel s cb s' : parse_if_cond_block B ps fuel s = Ok cb s' -> serrs s' = [] -> WF s ->
+  sused s' = [] /\ fns s' = fns s /\ cb_sok (fns s) cb /\ scope_brs (tabs_of B (fns s)) [cb] (abs s) = Some (abs s').
+Proof.
+  unfold parse_if_cond_block. intros H Q [N U]. cbv zeta in H.
+  destruct (parse_condition B (adv (push_inherit false s))) as [c s2| |] eqn:P; try discriminate H.
+  destruct (parse_block_with ps fuel true (apnl s2)) as [b s3| |] eqn:PB; try discriminate H.
+  apply Ok_inj in H as [E1 E2]; subst. norm.
+  destruct (block_with_sound ps HPS _ _ _ _ _ PB Q) as (Qb & Fb & _). norm.
+  destruct (condition_sn B _ _ _ P Qb) as [_ F2].
+  destruct (condition_sim _ _ _ P Qb) as (c0 & -> & Tc & Sc & Uc & Fc & U2); [norm; exact U|]. norm.
+  destruct (block_with_sim _ _ _ _ _ PB Q) as (U3 & Fn3 & Tb & Sb).
+  { split; [|norm; exact U2]. eapply (scs_of_frames (adv (push_inherit false s))); [autorewrite with frames; exact F2|discriminate]. }
+  norm. rewrite Fc in *.
+  split; [exact U3|]. split; [exact Fn3|]. split; [split; [split|]; assumption|].
+  simpl. rewrite Uc. simpl. rewrite Sb. reflexivity.
+Qed.
+
+Lemma else_if_loop_sim : forall fuel bfuel acc s r s', else_if_loop B ps fuel bfuel acc s = Ok r s' ->
+  serrs s' = [] -> WF s ->
+  sused s' = [] /\ fns s' = fns s /\
+  exists l, r = rev acc ++ l /\ Forall (cb_sok (fns s)) l /\ scope_brs (tabs_of B (fns s)) l (abs s) = Some (abs s').
+Proof.
+  induction fuel as [|f IH]; intros bfuel acc s r s' H Q W; [discriminate|]. cbn [else_if_loop] in H.
+  assert (D : Ok (rev acc) s = Ok r s' -> sused s' = [] /\ fns s' = fns s /\
+    exists l, r = rev acc ++ l /\ Forall (cb_sok (fns s)) l /\ scope_brs (tabs_of B (fns s)) l (abs s) = Some (abs s')).
+  { intro E. apply Ok_inj in E as [E1 E2]; subst. destruct W. split; [assumption|]. split; [reflexivity|].
+    exists []. rewrite app_nil_r. split; [reflexivity|]. split; [constructor|reflexivity]. }
+  destruct (ct s); try exact (D H).
+  destruct (ttype (peek (cs s))); try exact (D H).
+  destruct (parse_if_cond_block B ps bfuel (adv s)) as [cb s1| |] eqn:P; try discriminate H.
+  destruct (else_if_loop_sn B ps HPS _ _ _ _ _ _ H Q) as [Q1 _].
+  destruct (if_cond_block_sound B ps HPS _ _ _ _ P Q1) as (_ & F0 & _). autorewrite with frames in F0.
+  destruct (if_cond_block_sim _ _ _ _ P Q1) as (U1 & Fn1 & Tc & Sc); [destruct W; split; norm; assumption|]. norm.
+  destruct (IH _ _ _ _ _ H Q) as (U2 & Fn2 & l & El & Tl & Sl); [split; [eapply scs_of_frames; [exact F0|apply W]|exact U1]|].
+  split; [exact U2|]. split; [congruence|]. exists (cb :: l). simpl in El. rewrite <- app_assoc in El. split; [exact El|].
+  rewrite Fn1 in *. split; [constructor; assumption|].
+  change (cb :: l) with ([cb] ++ l). rewrite scope_brs_app, Sc. simpl. exact Sl.
+Qed.
+
+Lemma if_stmt_sim fuel s r s' : parse_if_stmt B ps fuel s = Ok r s' -> SIM s r s'.
+Proof.
+  unfold parse_if_stmt. intros H Q W.
+  destruct (parse_if_cond_block B ps fuel s) as [cb s1| |] eqn:P1; try discriminate H.
+  destruct (else_if_loop B ps (S (pos s1)) fuel [cb] s1) as [brs s2| |] eqn:P2; try discriminate H.
+  assert (D : forall els s3, Ok (Some (SIf brs els)) (finish_end s3) = Ok r s' ->
+              SN s2 s3 ->
+              (serrs s3 = [] -> WF s2 -> sused s3 = [] /\ fns s3 = fns s2 /\
+                 match els with
+                 | Some e => block_sok B (fns s2) e /\ scope_block (tabs_of B (fns s2)) e ([] :: abs s2) = Some (abs s3)
+                 | None => abs s3 = abs s2
+                 end) ->
+              sused s' = [] /\ fns s' = fns s /\
+              match r with
+              | Some st => stmt_sok B (fns s) st /\ scope_stmt (tabs_of B (fns s)) st (abs s) = Some (abs s')
+              | None => abs s' = abs s
+              end).
+  { intros els s3 E N3 G3. apply Ok_inj in E as [E1 E2]; subst. norm.
+    destruct (SN_finish_end s3 Q) as [Q3 F3]. destruct (N3 Q3) as [Q2 F32].
+    destruct (else_if_loop_sn B ps HPS _ _ _ _ _ _ P2 Q2) as [Q1 F21].
+    destruct (if_cond_block_sound B ps HPS _ _ _ _ P1 Q1) as (Q0 & F10 & _).
+    destruct (if_cond_block_sim _ _ _ _ P1 Q1 W) as (U1 & Fn1 & Tc & Sc).
+    assert (W1 : WF s1) by (split; [eapply scs_of_frames; [exact F10|apply W]|exact U1]).
+    destruct (else_if_loop_sim _ _ _ _ _ _ P2 Q2 W1) as (U2 & Fn2 & l & El & Tl & Sl). simpl in El. subst brs.
+    assert (W2 : WF s2) by (split; [eapply scs_of_frames; [exact F21|apply W1]|exact U2]).
+    destruct (G3 Q3 W2) as (U3 & Fn3 & Ge). rewrite Fn2, Fn1 in *.
+    split; [exact U3|]. split; [congruence|]. split.
+    - simpl. split; [split; [apply Tc|split; [apply Tc|apply brs_sok_fix; exact Tl]]|]. destruct els; [apply Ge|exact I].
+    - rewrite scope_if_eq. change (cb :: l) with ([cb] ++ l). rewrite scope_brs_app, Sc. simpl. rewrite Sl. simpl.
+      destruct els; [apply Ge|rewrite Ge; reflexivity]. }
+  destruct (ct s2) eqn:T; try (apply (D None s2 H); [apply SN_refl|intros _ [_ U2]; auto]).
+  cbv zeta in H.
+  destruct (parse_block_with ps fuel false (push_inherit false (apnl (assert_eol (adv s2))))) as [b s4| |] eqn:PB; try discriminate H.
+  apply (D (Some b) (pop_scope s4) H).
+  - intro Q4. autorewrite with serrs in Q4. destruct (block_with_sound ps HPS _ _ _ _ _ PB Q4) as (Qb & Fb & _).
+    autorewrite with serrs in Qb. destruct (SN_assert_eol _ Qb) as [Qa _]. autorewrite with serrs in Qa.
+    split; [exact Qa|]. autorewrite with frames. rewrite Fb. rewrite frames_push_inherit. simpl. autorewrite with frames. reflexivity.
+  - intros Q4 [N2 U2]. autorewrite with serrs in Q4.
+    destruct (block_with_sim _ _ _ _ _ PB Q4) as (U3 & Fn3 & Tb & Sb); [split; [discriminate|norm; exact U2]|].
+    norm. auto.
+Qed.
